@@ -1,7 +1,145 @@
-(* C04/Properties.v — property C04 (work in progress) *)
-From Common Require Import Bytes Outcome.
-From C04 Require Import Model.
+(* C04/Properties.v — property C04: persisted state reads back identically.
+   Only statements, each closed by `exact <lemma>`, with Print Assumptions beneath.
 
-Theorem C04_placeholder : all_fixed <> none_fixed.
-Proof. discriminate. Qed.
-Print Assumptions C04_placeholder.
+   Model: coq/TrieCodec/Db.v (Load / loadNode / loadStorageValue, GetFromDB / getFromDBAtNode,
+   WriteDirty / writeDirtyNode of pkg/trie/inmemory/database.go) over the node codec of C07.
+   H is the hash; only its 32-byte output length is used, and — for writes — that it does not
+   collide on the finite set of strings written and relied upon in the history ([H_inj_on], checked
+   for every run by the driver, which compares the whole table). *)
+From Common Require Import Bytes Outcome Blake2b.
+From TrieCodec Require Import Codec View Db ProofsBasic ProofsDecode ProofsDb ProofsWrite.
+From C04 Require Import Model Proofs.
+Local Open Scope N_scope.
+
+(* Reload: if the database holds what the trie t needs (every non-inlined node under its hash, every
+   hashed value under partialKey ++ hash), Load by root hash rebuilds exactly t — same nodes, hence
+   same root, same entries — for both state versions (mbh flags), inlined leaves and branches. *)
+Theorem C04_reload :
+  forall (H : list byte -> list byte), (forall x, length (H x) = 32%nat) ->
+  forall st dfix t d, wf_node t = true -> has d (needs H true t) ->
+  H (encode H t) <> empty_root H ->
+  load H st dfix (height t) d (H (encode H t)) = Ok (Some t).
+Proof. intros H Hlen st dfix t d W Hh Hne. exact (load_has H Hlen st dfix t d W Hh Hne (height t) (le_n _)). Qed.
+Print Assumptions C04_reload.
+
+(* Point read: GetFromDB (as repaired by fixes/C04-1..4) returns for every key, present or
+   absent, what the in-memory trie holds under that key *)
+Theorem C04_point_read :
+  forall (H : list byte -> list byte), (forall x, length (H x) = 32%nat) ->
+  forall st dfix t d key, wf_node t = true -> has d (needs H true t) ->
+  H (encode H t) <> empty_root H ->
+  get_from_db_fixed H st dfix d (H (encode H t)) key = Ok (lookup t (nibbles_of_bytes key)).
+Proof. intros H Hlen st dfix t d key. exact (get_from_db_has H Hlen st dfix t d key). Qed.
+Print Assumptions C04_point_read.
+
+(* One WriteDirty: given that what it skips (clean subtrees) is in the database, afterwards the
+   database has everything the trie needs *)
+Theorem C04_write_dirty :
+  forall (H : list byte -> list byte), (forall x, length (H x) = 32%nat) ->
+  forall d r w, has d (needs_clean H r w) ->
+  H_inj_on H (map snd (wd_puts H r w ++ needs_clean H r w)) ->
+  has (fst (write_dirty_node H r d w)) (needs H r (erase w)).
+Proof. exact write_dirty_node_has. Qed.
+Print Assumptions C04_write_dirty.
+
+(* Histories: tries written one after the other (successive block states and their child tries,
+   each with the Dirty flags it has when written, sharing clean nodes with earlier ones).  After the
+   last write every trie of the history is still completely in the database, so by C04_reload and
+   C04_point_read each of them reloads identically and reads back key by key. *)
+Theorem C04_history :
+  forall (H : list byte -> list byte), (forall x, length (H x) = 32%nat) ->
+  forall d ws d', chain H d ws d' -> H_inj_on H (all_strings H ws) ->
+  Forall (fun w => has d' (needs H true (erase w))) ws.
+Proof. exact chain_has. Qed.
+Print Assumptions C04_history.
+
+Theorem C04_history_reads :
+  forall (H : list byte -> list byte), (forall x, length (H x) = 32%nat) ->
+  forall st dfix d ws d', chain H d ws d' -> H_inj_on H (all_strings H ws) ->
+  forall w, In w ws -> wf_node (erase w) = true -> H (encode H (erase w)) <> empty_root H ->
+     load H st dfix (height (erase w)) d' (H (encode H (erase w))) = Ok (Some (erase w))
+  /\ forall key, get_from_db_fixed H st dfix d' (H (encode H (erase w))) key
+                 = Ok (lookup (erase w) (nibbles_of_bytes key)).
+Proof.
+  intros H Hlen st dfix d ws d' Hc Hinj w Hin W Hne.
+  pose proof (chain_has H Hlen d ws d' Hc Hinj) as Hall. rewrite Forall_forall in Hall.
+  specialize (Hall w Hin). split.
+  - exact (load_has H Hlen st dfix (erase w) d' W Hall Hne (height (erase w)) (le_n _)).
+  - intro key. exact (get_from_db_has H Hlen st dfix (erase w) d' key W Hall Hne).
+Qed.
+Print Assumptions C04_history_reads.
+
+(* the hash of the code satisfies the length hypothesis *)
+Theorem C04_blake2b_length : forall m, length (blake2b_256 m) = 32%nat.
+Proof. exact blake2b_256_length. Qed.
+Print Assumptions C04_blake2b_length.
+
+(* ------------------------------------------------------------------ non-vacuity and refutations *)
+Definition nib (l : list N) : list byte := map n2b l.
+Definition v33 : list byte := repeat (n2b 7) 33.
+Definition v33' : list byte := repeat (n2b 9) 33.
+
+(* a V1 leaf whose value is hashed *)
+Definition ex_hashed : wnode := WN (nib [1; 15; 1; 0]) (Some v33) true true [].
+(* 0xab1f, 0x1f10, 0x1f10a012: child 1 of the root is an inlined branch *)
+Definition at_ (i : nat) (c : wnode) (l : list (option wnode)) : list (option wnode) :=
+  firstn i l ++ Some c :: skipn (S i) l.
+Definition none16 : list (option wnode) := repeat None 16.
+Definition ex_inlined : wnode :=
+  WN [] None false true
+     (at_ 1 (WN (nib [15; 1; 0]) (Some (nib [101; 168])) false true
+                (at_ 10 (WN (nib [0; 1; 2]) (Some (nib [83; 105])) false true []) none16))
+      (at_ 10 (WN (nib [11; 1; 15]) (Some (nib [240])) false true []) none16)).
+(* 0x1234 and 0x1235 with 33-byte values: the root branch has the partial key 1,2,3 *)
+Definition ex_diverge : wnode :=
+  WN (nib [1; 2; 3]) None false true
+     (at_ 4 (WN [] (Some v33) false true []) (at_ 5 (WN [] (Some v33') false true []) none16)).
+(* 0x1f and 0x1f1101: the root branch has the partial key 1,f and a value *)
+Definition ex_exhaust : wnode :=
+  WN (nib [1; 15]) (Some (nib [130; 185])) false true
+     (at_ 1 (WN (nib [1; 0; 1]) (Some (nib [66; 49])) false true []) none16).
+
+Definition db_of (w : wnode) : db := fst (write_dirty_node blake2b_256 true [] w).
+Definition root_of (w : wnode) : list byte := blake2b_256 (encode blake2b_256 (erase w)).
+
+Example C04_nonvacuous :
+     wf_node (erase ex_hashed) = true /\ wf_node (erase ex_inlined) = true
+  /\ has (db_of ex_hashed) (needs blake2b_256 true (erase ex_hashed))
+  /\ length (needs blake2b_256 true (erase ex_hashed)) = 2%nat
+  /\ load blake2b_256 (false, false) true 3 (db_of ex_inlined) (root_of ex_inlined) = Ok (Some (erase ex_inlined))
+  /\ get_from_db_fixed blake2b_256 (false, false) true (db_of ex_hashed) (root_of ex_hashed) (nib [31; 16]) = Ok (Some v33).
+Proof.
+  split; [vm_compute; reflexivity|]. split; [vm_compute; reflexivity|].
+  split; [repeat (constructor; [vm_compute; reflexivity|]); constructor|].
+  split; [vm_compute; reflexivity|]. split; vm_compute; reflexivity.
+Qed.
+
+(* GetFromDB of the pinned tree: (1) returns the 32-byte hash of a hashed value, (2) fails on a key
+   below an inlined branch, (3) returns the value of 0x1234 for the absent key 0x14, (4) returns the
+   value of 0x1f for the absent empty key — each against a database written by WriteDirty *)
+Theorem C04_point_read_pinned_refuted :
+     get_from_db_pinned blake2b_256 (false, false) true (db_of ex_hashed) (root_of ex_hashed) (nib [31; 16])
+     = Ok (Some (blake2b_256 v33))
+  /\ lookup (erase ex_hashed) (nibbles_of_bytes (nib [31; 16])) = Some v33
+  /\ get_from_db_pinned blake2b_256 (false, false) true (db_of ex_inlined) (root_of ex_inlined) (nib [31; 16])
+     = Err E_DBMISS
+  /\ lookup (erase ex_inlined) (nibbles_of_bytes (nib [31; 16])) = Some (nib [101; 168])
+  /\ get_from_db_pinned blake2b_256 (false, false) true (db_of ex_diverge) (root_of ex_diverge) (nib [20])
+     = Ok (Some v33)
+  /\ lookup (erase ex_diverge) (nibbles_of_bytes (nib [20])) = None
+  /\ get_from_db_pinned blake2b_256 (false, false) true (db_of ex_exhaust) (root_of ex_exhaust) []
+     = Ok (Some (nib [130; 185]))
+  /\ lookup (erase ex_exhaust) (nibbles_of_bytes []) = None.
+Proof. repeat split; vm_compute; reflexivity. Qed.
+Print Assumptions C04_point_read_pinned_refuted.
+
+(* WriteDirty of the pinned tree does not write the child tries when the root of the parent trie is
+   a leaf: the child trie root is missing from the database (so Load of the state fails) *)
+Theorem C04_write_dirty_pinned_refuted :
+  let child := WN (nib [1; 2; 0; 1; 1; 0]) (Some v33) false true [] in
+  let parent := WN (nibbles_of_bytes (child_prefix ++ nib [99])) (Some (root_of child)) false true [] in
+     db_get (write_dirty_pinned blake2b_256 [] (Some parent) [child]) (root_of child) = None
+  /\ db_get (write_dirty_fixed blake2b_256 [] (Some parent) [child]) (root_of child)
+     = Some (encode blake2b_256 (erase child)).
+Proof. split; vm_compute; reflexivity. Qed.
+Print Assumptions C04_write_dirty_pinned_refuted.
